@@ -79,7 +79,7 @@ func (w *zzRspWorld) none(tag string) {
 }
 
 type zzTrace struct {
-	nsess, nfree, nnodes, ncalls, nrules int
+	nsess, nfree, nnodes, ncalls, nrules, nowned int
 }
 
 func (w *zzRspWorld) trace() zzTrace {
@@ -89,12 +89,16 @@ func (w *zzRspWorld) trace() zzTrace {
 			t.nrules++
 		}
 	}
+	for _, n := range w.s.rnodes {
+		t.nowned += len(n.sess) // SEIDs the associations list as theirs
+	}
 	return t
 }
 
 func (w *zzRspWorld) noTrace(t zzTrace, tag string) {
 	zzAssert("C08.no-trace.sessions."+tag, len(w.s.lnode.sess) == t.nsess && len(w.s.lnode.free) == t.nfree)
 	zzAssert("C08.no-trace.nodes."+tag, len(w.s.rnodes) == t.nnodes)
+	zzAssert("C08.no-trace.ownership."+tag, w.trace().nowned == t.nowned)
 	zzAssert("C08.no-trace.dataplane."+tag, len(w.dp.calls) == t.ncalls)
 }
 
@@ -137,14 +141,20 @@ func zzC08Establish() {
 	zzDeliver(w.s, zzAssocReq(1, zzNodeA), zzAddrA, 1)
 	w.sent = zzSentCount()
 	n := nondetChoice("from-node", 2) // node B is not associated
-	shape := nondetChoice("shape", 3) // 0 complete, 1 no Node ID, 2 no CP F-SEID
+	shape := nondetChoice("shape", 5) // 0 complete, 1 no Node ID, 2 no CP F-SEID, 3/4 CP F-SEID present but undecodable
 	cp := nondetU64("cpseid")
 	seq := zzSeq24("seq")
 	var ies []*ie.IE
 	if shape != 1 {
 		ies = append(ies, ie.NewNodeID(zzNodeID(n), "", ""))
 	}
-	if shape != 2 {
+	switch shape {
+	case 2:
+	case 3: // V4 flag set, address truncated
+		ies = append(ies, ie.New(ie.FSEID, []byte{0x02, 0, 0, 0, 0, 0, 0, 0, 0x11}))
+	case 4: // empty payload
+		ies = append(ies, ie.New(ie.FSEID, nil))
+	default:
 		ies = append(ies, ie.NewFSEID(cp, []byte{127, 0, 0, byte(n + 1)}, nil))
 	}
 	np := nondetChoice("npdr", 3)
@@ -246,13 +256,23 @@ func zzC08SessionLevel() {
 	}
 	x := nondetU64("header-seid")
 	seq := zzSeq24("seq")
-	zzAssume(seq != 0xfffff1)
+	zzAssume(seq != 0xfffff1 && seq != 0xfffff3)
 	peer := nondetChoice("peer", 2)
 	kind := nondetChoice("kind", 3) // 0 modification, 1 deletion, 2 modification with undecodable Node ID
 	t := w.trace()
 	live := ended == 0 && x == oldID
+	// a Modification may carry a CP F-SEID IE (the control plane changing its SEID). Whether the UPF
+	// adopts it or ignores it, it must do so consistently: this response and the next one for the
+	// same session carry the same SEID, and it is one of the two the peer has named.
+	newCP := cp
+	withFSEID := kind == 0 && nondetBool("modification-carries-cp-fseid")
 	switch kind {
 	case 0:
+		if withFSEID {
+			newCP = nondetU64("new-cpseid")
+			zzDeliver(w.s, zzModReq(x, seq, ie.NewFSEID(newCP, []byte{127, 0, 0, 1}, nil)), zzAddr(peer), seq)
+			break
+		}
 		zzDeliver(w.s, zzModReq(x, seq), zzAddr(peer), seq)
 	case 1:
 		zzDeliver(w.s, zzDelReq(x, seq), zzAddr(peer), seq)
@@ -276,7 +296,15 @@ func zzC08SessionLevel() {
 	cause := zzFindCause(b, h)
 	if live {
 		zzAssert("C08.sess.accepted", cause == ie.CauseRequestAccepted)
-		zzAssert("C08.sess.seid-is-peers", h.s && h.seid == cp)
+		zzAssert("C08.sess.seid-is-peers", h.s && (h.seid == cp || h.seid == newCP))
+		if withFSEID {
+			// the next response for this session (a Deletion) names the same control-plane SEID
+			zzDeliver(w.s, zzDelReq(x, 0xfffff3), zzAddr(peer), 0xfffff3)
+			if _, h2, ok2 := w.one(zzAddr(peer), 0xfffff3, 55, "sess-after-fseid"); ok2 {
+				zzAssert("C08.sess.cp-seid-consistent-across-responses", h2.s && h2.seid == h.seid)
+			}
+			zzCover("C08.sess.with-cp-fseid")
+		}
 		zzCover("C08.sess.live")
 	} else {
 		zzAssert("C08.sess.notfound-cause", cause == ie.CauseSessionContextNotFound)
